@@ -11,7 +11,7 @@ from lib.vlib import Infra
 
 SPEC = os.path.join(vlib.SPECS, "wire")
 COUNT = {"quick": 800, "thorough": 40000}
-OWN = {"C22": ("decode", "stream", "convert", "fuzz"), "C23": ("trunc", "send")}
+OWN = {"C22": ("decode", "stream", "convert", "fuzz", "conns"), "C23": ("trunc", "send")}
 
 
 def short(r):
